@@ -21,6 +21,10 @@ CHECKS["C11"] = ("Coq theorems: std's checked digit loop (as used by both the qu
          "out-of-range value, every rejection is a spanned error and never a panic; bool/char/String tables; floats relative to the std oracle. Tied to core/src/from_meta.rs by running "
          "boundary/odd/wrong-form literals through the real from_meta and the model inside Coq (thorough: exhaustive [-70000,70000] x 24 x 2 interval sweep).",
          "Coq proof (loop invariant over digit lists, Z arithmetic) + per-run differential correspondence")
+CHECKS["C12"] = ("Coq theorems for an ARBITRARY inner implementer T (any set of overridden hooks) and every meta item: Option, Box/Rc/Arc/RefCell, darling::Result (never fails, holds T's outcome), "
+         "Result<T,Meta> (keeps the original item), SpannedValue (value's own range), WithOriginal (copy of the item), Override (word = Inherit, every other form exactly T), the absent table, "
+         "two-level compositions. Tied to the code by running W<T>::from_meta(m) and T::from_meta(m) on the same m for 10 wrappers x 11 inner targets and all 100 two-level compositions.",
+         "Coq proof (record-of-overrides model of the trait, quantified over all implementers) + per-run differential correspondence")
 PARTIAL = {}
 def chk(pid):
     text, tech = CHECKS[pid]
